@@ -12,11 +12,14 @@ def run(ctx):
     q = ctx.quick()
     # 1. exhaustive: policy-independent safety for every feed (incl. illegal ones), then the exact policy
     model_check(ctx, SPEC, "MC_ChangeCache", "MC_ChangeCache.cfg" if q else "MC_ChangeCache_thorough.cfg", timeout=1500 if q else 6000)
+    if not q:
+        model_check(ctx, SPEC, "MC_ChangeCache", "MC_ChangeCache_exact.cfg", timeout=6000)
+        model_check(ctx, SPEC, "MC_ChangeCache", "MC_ChangeCache_legal.cfg", timeout=6000)
     ctx.cov["exhaustive"] = True
     # 2. behaviours: all of a tiny instance + seeded simulations (unconstrained feeds, legal feeds)
     behs = behaviours(ctx, SPEC, "MC_ChangeCache", "Beh_ChangeCache.cfg")
-    behs += behaviours(ctx, SPEC, "MC_ChangeCache", "Sim_ChangeCache.cfg", num=15 if q else 250, depth=14)
-    behs += behaviours(ctx, SPEC, "MC_ChangeCache", "Sim_ChangeCache_legal.cfg", num=40 if q else 1000, depth=14)
+    behs += behaviours(ctx, SPEC, "MC_ChangeCache", "Sim_ChangeCache.cfg", num=15 if q else 150, depth=14)
+    behs += behaviours(ctx, SPEC, "MC_ChangeCache", "Sim_ChangeCache_legal.cfg", num=40 if q else 600, depth=14)
     nseq = len(behs)
     # 3. concurrent variant: the arrivals of simulated behaviours delivered by 2-4 goroutines (final state + forward order)
     rnd = random.Random(ctx.seed)
